@@ -324,7 +324,20 @@ func clientUpgradeBR(s shape, g int, trailing int, chunks []int) (*bufio.Reader,
 		return []byte("HTTP/1.1 101 Switching Protocols\r\nUpgrade: websocket\r\nConnection: Upgrade\r\nSec-WebSocket-Accept: " + acceptFor(key) +
 			"\r\nSec-WebSocket-Protocol: " + proto + "\r\nSec-WebSocket-Extensions: " + strings.Join(answer, ", ") + "\r\n\r\n" + word(g, 60, trailing))
 	}}
-	return d.Upgrade(p, dialURL)
+	offered := func() string {
+		var b strings.Builder
+		for _, o := range d.Extensions {
+			b.WriteString(renderOption(o) + " | ")
+		}
+		return b.String() + strings.Join(d.Protocols, ",")
+	}
+	before := offered()
+	br, hs, err := d.Upgrade(p, dialURL)
+	if after := offered(); err == nil && after != before {
+		// the Dialer's configuration is the caller's: a handshake reads it, it must not write the outcome into it
+		return br, hs, fmt.Errorf("Dialer.Upgrade changed the caller's Dialer.Extensions / Protocols: %q -> %q", before, after)
+	}
+	return br, hs, err
 }
 
 // closeReason handles a close frame whose reason is word(g, ·, n) and returns the ClosedError.
@@ -450,7 +463,20 @@ func poolChurn(g int) {
 	for c := 128; c <= 65536; c *= 2 {
 		wsutil.WriteClientMessage(tx.NewRec(), ws.OpBinary, []byte(word(g, 56, c-1)))
 		wsutil.WriteClientMessage(tx.NewRec(), ws.OpBinary, []byte(word(g+1, 57, c/2+1)))
+		// three buffers of the class in use at the same time: a destination that itself writes through
+		// the library (a relay) before it accepts the outer bytes
+		wsutil.NewCipherWriter(&nestedDest{depth: 2, g: g, n: c - 1}, [4]byte{1, 2, 3, byte(g)}).Write([]byte(word(g+2, 58, c-1)))
 	}
+}
+
+// nestedDest is a destination whose Write first performs another masked write of the same size class.
+type nestedDest struct{ depth, g, n int }
+
+func (d *nestedDest) Write(p []byte) (int, error) {
+	if d.depth > 0 {
+		wsutil.NewCipherWriter(&nestedDest{depth: d.depth - 1, g: d.g + 1, n: d.n}, [4]byte{9, byte(d.g), 7, 6}).Write([]byte(word(d.g+3, 59, d.n)))
+	}
+	return len(p), nil
 }
 
 // controlRoundTrip reads a fragmented message with an interleaved ping through
@@ -825,6 +851,10 @@ func TestCallerBuffersUntouched(t *testing.T) {
 			return
 		case "CipherWriter.Write":
 			key := gen.Key(t, "key")
+			if rapid.IntRange(0, 3).Draw(t, "zerokey") == 0 {
+				key = [4]byte{} // a legal key under which masking changes nothing
+				hx.Class("CipherWriter.Write/zero-key")
+			}
 			off := rapid.IntRange(0, 7).Draw(t, "prefix")
 			cw := wsutil.NewCipherWriter(rec, key)
 			pre := make([]byte, off)
@@ -835,12 +865,15 @@ func TestCallerBuffersUntouched(t *testing.T) {
 			if !bytes.Equal(p, orig) {
 				t.Fatalf("CipherWriter.Write modified the caller's slice")
 			}
-			if rec.FailAt >= 0 {
-				return
+			if rec.FailAt < 0 {
+				want := append(ref.Mask(pre, key, 0), ref.Mask(orig, key, int64(off))...)
+				if !bytes.Equal(rec.Bytes(), want) {
+					t.Fatalf("CipherWriter output differs from the XOR of the original bytes")
+				}
 			}
-			want := append(ref.Mask(pre, key, 0), ref.Mask(orig, key, int64(off))...)
-			if !bytes.Equal(rec.Bytes(), want) {
-				t.Fatalf("CipherWriter output differs from the XOR of the original bytes")
+			poolChurn(caseNo)
+			if !bytes.Equal(p, orig) {
+				t.Fatalf("CipherWriter.Write (key %x): the caller's slice (len %d cap %d) changed during later, unrelated writes: the library kept or pooled it: %x… -> %x…", key, len(p), cap(p), head(orig), head(p))
 			}
 			return
 		case "MaskFrame", "MaskFrameWith", "UnmaskFrame":
